@@ -1,11 +1,13 @@
 // Bounded stand-in for C06 (lines that yield no row are invisible to every query).
 #![allow(dead_code, unused_imports)]
 // Oracle (metamorphic, from the statement): the output of a query is unchanged when non-admitted lines are inserted at any
-// positions of the input (or of the joined file).  Grid: 6 "worlds" (table definition, pool of admitted lines, kinds of
+// positions of the input (or of the joined file).  Grid: 8 "worlds" (table definition, pool of admitted lines, kinds of
 // non-admitted line: non-matching text, empty line, near-miss, line failing a NOT NULL column - with and without DEFAULT /
-// BOOLEAN / array columns, two patterns) x every sequence of up to 2 admitted lines x one noise line at each position (kinds
+// BOOLEAN / array / JSON columns, two patterns) x every sequence of up to 2 admitted lines x one noise line at each position (kinds
 // rotating) or all kinds at every position x plain / DISTINCT / LIMIT / aggregate / HAVING / INNER and OUTER JOIN statements, in batch and in follow mode;
 // plus the admission rule itself on 13 (definition, line) pairs.
+// Also: the same in follow mode (a non-admitted line shows nothing); worlds with array columns (all elements NULL), JSON
+// columns (explicit nulls, empty containers) and a NOT NULL month-name TIMESTAMP.
 include!("verif_grid_common.rs");
 include!("verif_grid_qcommon.rs");
 
@@ -56,6 +58,13 @@ fn verif_grid() {
         World { name: "array", def: "CREATE TABLE t(line = '^x=([0-9]*) y=([0-9]*)( z)?$', line[1], line[2] => xs INT[]);".to_owned(),
                 pool: vec!["x=1 y=2", "x=3 y=", "x= y=4 z"], noise: vec!["", "x= y=", "x=99999999999999999999 y=", "X=1 y=2", "x= y= z"],
                 statements: ["SELECT xs FROM t", "SELECT COUNT(*) AS n FROM t", "SELECT DISTINCT xs FROM t", "SELECT xs FROM t LIMIT 2", "SELECT array_length(xs) AS n FROM t"].iter().map(|s| s.to_string()).collect() },
+        World { name: "json", def: "CREATE TABLE t({ .msg } => msg TEXT, { .tags[0] } => tag TEXT, { .n } => n INT);".to_owned(),
+                pool: vec![r#"{"msg": "hello", "n": 1}"#, r#"{"tags": ["x"], "n": 2}"#, r#"{"msg": "", "tags": []}"#],
+                noise: vec!["", r#"{"msg": null}"#, r#"{"msg": null, "tags": [null], "n": null}"#, "{}", "[]", "null", r#"{"other": 1}"#, "not json", r#"{"msg": 5, "n": "7"}"#],
+                statements: ["SELECT msg, tag, n FROM t", "SELECT COUNT(*) AS c FROM t", "SELECT DISTINCT msg FROM t", "SELECT msg FROM t LIMIT 2", "SELECT msg, COUNT(*) AS c FROM t GROUP BY msg"].iter().map(|s| s.to_string()).collect() },
+        World { name: "month", def: "CREATE TABLE t(line = '^on ([0-9]+) ([A-Za-z]+) ([0-9]+) (.*)$', line[3], line[2], line[1] => ts TIMESTAMP NOT NULL, line[4] => msg TEXT);".to_owned(),
+                pool: vec!["on 5 Mar 2020 boot", "on 31 dec 1999 party", "on 9 Sept 2021 fall"], noise: vec!["", "on 5 Marker 2020 x", "on 1 Decoder 2021 y", "on 7 Maybe 2020 z", "on 31 Feb 2020 w", "on x Mar 2020 v"],
+                statements: ["SELECT ts, msg FROM t", "SELECT COUNT(*) AS c FROM t", "SELECT DISTINCT msg FROM t", "SELECT msg FROM t LIMIT 2", "SELECT msg, COUNT(*) AS c FROM t GROUP BY msg"].iter().map(|s| s.to_string()).collect() },
         World { name: "join", def: join_def.to_owned(), pool: vec!["u=ann h=alpha", "u=bob h=gamma", "u=cy h=beta", "u=dee h="], noise: vec!["", "zzz", "u= h=alpha", "u=ann"],
                 statements: join_statements(&hosts) },
     ];
@@ -108,7 +117,7 @@ fn verif_grid() {
         }
     }
     // the joined side: non-admitted lines in the joined file change nothing
-    for (bi, base) in sequences(&worlds[5].pool, 2).into_iter().enumerate() {
+    for (bi, base) in sequences(&worlds[7].pool, 2).into_iter().enumerate() {
         for (si, (a, c)) in join_statements(&hosts).into_iter().zip(join_statements(&hosts_noisy).into_iter()).enumerate() {
             let base2 = base.clone();
             g.case(&format!("joined-side-b{}-s{}", bi, si), move || {
